@@ -41,6 +41,37 @@ def stage_monitor(ctx):
                 except ValueError: pass
                 except Exception as ex:     # noqa
                     st.violation('single-read-raises', f'{fam}.read_setting({s.id_!r}) raised {type(ex).__name__}: {ex}', dict(config=cfg, setting=s.id_))
+    # every sensor in turn: its OWN registers set to the special bit patterns of its width (integer limits, IEEE-754 infinities / NaNs / denormals
+    # for the float sensors), everything else as the simulator has it -- the bulk read still returns every listed id
+    SPECIAL = {1: [0x0000, 0xFFFF, 0x7FFF, 0x8000, 0xFFFE, 0x00FF, 0xFF00],
+               2: [0x00000000, 0xFFFFFFFF, 0x7FFFFFFF, 0x80000000, 0x7F800000, 0xFF800000, 0x7FC00000, 0xFFC00000, 0x7F7FFFFF, 0x00000001, 0x0000FFFF, 0xFFFF0000],
+               4: [0, 2 ** 64 - 1, 2 ** 63 - 1, 2 ** 63, 0x7FF0000000000000, 0xFFF0000000000000, 0x7FF8000000000000]}
+    objs = [('ET', ) + IM.make_et(goodwe, IM.ET_SERIALS['745 HV'], 15000, (), 2, seed=ctx.rng.randrange(1 << 30)),
+            ('DT', ) + IM.make_dt(goodwe, IM.DT_SERIALS['three-phase'], False, seed=ctx.rng.randrange(1 << 30))]
+    for fam, inv, sim in objs:
+        asyncio.run(inv.read_device_info())
+        try: asyncio.run(inv.read_runtime_data())
+        except Exception: pass          # noqa
+        sens = list({x.id_: x for x in inv.sensors()}.values())
+        sens = [x for x in sens if type(x).__name__ not in ('Calculated', 'EnumCalculated') and x.size_ in (1, 2, 4, 8)]
+        if not ctx.deep:
+            floats = [x for x in sens if type(x).__name__ in ('Float', 'Energy8', 'Timestamp')]
+            sens = floats + ctx.rng.sample([x for x in sens if x not in floats], 25)
+        for x in sens:
+            nreg = max(1, (x.size_ + 1) // 2)
+            keep = {a: sim.word(a) for a in range(x.offset, x.offset + nreg)}
+            for pat in SPECIAL.get(nreg, []):
+                for i in range(nreg): sim.set(x.offset + i, (pat >> (16 * (nreg - 1 - i))) & 0xFFFF)
+                cfg = dict(family=fam, sensor=x.id_, own_registers=f'{pat:#0{2 + 4 * nreg}x}')
+                st.case((fam, x.id_, pat), sample=cfg if len(st.samples) < 6 else None)
+                try:
+                    data = asyncio.run(inv.read_runtime_data())
+                except Exception as ex:     # noqa
+                    st.violation('bulk-read-raises', f'{fam}.read_runtime_data() raised {type(ex).__name__}: {ex} when the registers of {x.id_} hold {cfg["own_registers"]}', dict(config=cfg)); continue
+                want = {y.id_ for y in inv.sensors()}
+                if set(data) != want:
+                    st.violation('ids-missing', f'{fam}.read_runtime_data() misses {sorted(want - set(data))[:5]} when the registers of {x.id_} hold {cfg["own_registers"]}', dict(config=cfg))
+            for a, w in keep.items(): sim.set(a, w)
     # consecutive polls with an undecodable value (a cache of failing sensors must not drop the key)
     inv, sim = IM.make_dt(goodwe, IM.DT_SERIALS['three-phase'], False, seed=3); asyncio.run(inv.read_device_info())
     sim.set_bytes(30100, bytes([24, 13, 40, 25, 61, 61]))
